@@ -112,12 +112,31 @@ def run_go_functions(rep, spec, contracts, word=64, natives=(), extra_pkgs=(), v
         rep.notes.append('type-check: ' + e)
     out = []
     proved_lemmas = set()
-    for c in contracts:
+    auto = set()
+    queue = list(contracts)
+    retries = {}
+    while queue:
+        c = queue.pop(0)
         w = int(c.get('word')[0].text) if c.get('word') else word
         v = GoVerifier(dump, spec, word=w)
+        v.auto_inline = set(auto)
         try:
             v.load_axioms()
-            fr = v.verify_function(c.key)
+            try:
+                fr = v.verify_function(c.key)
+            except Unsupported as ex:
+                mk = getattr(ex, 'missing_callee', None)
+                # a repository function called without a contract: fetch its body and verify it inline (bounded retries)
+                if mk and not mk.startswith(('natives:', 'goroot:')) and retries.get(c.key, 0) < 6 \
+                   and os.path.isdir(os.path.join(REPO, pkg_of_key(mk))) and mk not in auto:
+                    retries[c.key] = retries.get(c.key, 0) + 1
+                    auto.add(mk)
+                    pkgs = sorted(set(pkgs) | {pkg_of_key(mk)})
+                    dump = run_astdump(pkgs, sorted(set(keys) | inl | allkeys | auto), natives=natives, globals_=sorted(gl))
+                    if mk in dump.get('funcs', {}):
+                        queue.insert(0, c)
+                        continue
+                raise
             for ln in sorted(getattr(v, 'used_lemmas', set()) - proved_lemmas):
                 proved_lemmas.add(ln)
                 if getattr(spec.lemmas[ln], 'is_axiom', False):
